@@ -31,7 +31,7 @@ CLAUSES = {
     "C15": ["R2_equal", "R2_exposed", "C01_value", "C03_value", "C06_entity", "C06_condition", "C06_enable", "C09_bag", "C09_extra", "C01_settles"],
     "C16": ["R2_equal", "R2_exposed", "C01_value", "C03_value", "C06_entity", "C06_condition", "C06_enable", "C09_bag", "C09_extra", "C01_settles"],
     "C17": ["R2_equal", "R2_exposed", "C01_value", "C01_settles", "C17_terminates", "C17_import_trace", "C17_import_once"],
-    "C18": ["C18_powered", "C18_one_grid", "C18_no_option", "C08_wire_reach", "C08_wire_ends", "C08_overlap", "R2_equal", "R2_exposed",
+    "C18": ["C18_powered", "C18_powered_outside", "C18_one_grid", "C18_no_option", "C08_wire_reach", "C08_wire_ends", "C08_overlap", "R2_equal", "R2_exposed",
             "C09_bag", "C09_extra", "C06_enable", "C06_entity", "C06_condition", "C01_settles"],
     "C20": ["C20_exposed", "C20_label", "C20_input", "C01_value", "C02_bag"],
 }
